@@ -378,3 +378,19 @@ def targets_of(ctx, fn, call):
                 if t[0] == "pkg" and t[1] not in out:
                     out.append(t[1])
     return out
+
+
+def constructor_helpers(ctx, init):
+    """Methods of the constructor's class that only the constructor calls: [(helper, call site in the constructor)].
+    Their bodies are part of the construction (a constructor split into steps)."""
+    out = []
+    for c in own_nodes(init.node):
+        if not isinstance(c, ast.Call):
+            continue
+        for h in targets_of(ctx, init, c):
+            if h is init or h.cls is not init.cls or any(h is o[0] for o in out):
+                continue
+            callers = [(f, site) for f, sites in ctx.cg.sites.items() for site in sites if any(t[0] == "pkg" and t[1] is h for t in site.targets)]
+            if len(callers) == 1 and callers[0][0] is init:
+                out.append((h, c))
+    return out
